@@ -116,6 +116,12 @@ class TypeState:
             else:
                 self._block(s.orelse)
             return
+        if isinstance(s, ast.For) and isinstance(s.iter, (ast.Tuple, ast.List)) and isinstance(s.target, ast.Name) and not s.orelse and not any(isinstance(x, (ast.Break, ast.Continue)) for b in s.body for x in ast.walk(b)):
+            # a loop over a literal sequence of fields (`for array in (self.a, self.b): ...`) is unrolled
+            for elt in s.iter.elts:
+                self.env[s.target.id] = self._eval(elt)
+                self._block(s.body)
+            return
         if isinstance(s, ast.Return):
             raise _Return(self._eval(s.value) if s.value is not None else NONE, s)
         if isinstance(s, ast.Raise):
